@@ -86,7 +86,7 @@ Spec == Init /\ [][Next]_vars
 
 AtEnd == l = NRec + 1
 Brief == IF AtEnd THEN [l |-> l, bad |-> bad, nemit |-> nemit, peak |-> peak] ELSE [l |-> l]
-Holds(p) == AtEnd => \A b \in bad : b[1] # p
+Holds(p) == AtEnd => NoneFor(bad, p)
 C13 == Holds("C13")
 Report == AtEnd => PrintT(<<"RATE-REPORT", nemit, peak>>)
 ====================================================================================
